@@ -87,6 +87,21 @@ def evaluate(case):
             fails.append("transform uncertainty depends on the data: integer-typed data give a different (truncated) uncertainty")
     except Exception as ex:  # noqa: BLE001
         fails.append(f"integer-typed data with float uncertainties raise {type(ex).__name__}")
+    # ... and only on the *values* of the output grid: bin numbers / whole-number abscissae held in an integer array give the
+    # uncertainties of the same grid held as floats
+    xw = np.arange(1, 2 + len(xo) % 4, dtype=np.int64)
+    try:
+        _, _, uf = tr.fourier_transform(x, y, xw.astype(float), xmax=hi, dy_in=e, **kw)
+        _, _, uw = tr.fourier_transform(x, y, xw, xmax=hi, dy_in=e, **kw)
+        if np.asarray(uw).shape != np.asarray(uf).shape or exceeds(np.abs(np.asarray(uw, dtype=float) - np.asarray(uf, dtype=float)).max(),
+                                                                    1e-12 * (float(np.abs(uf).max()) + 1e-300)):
+            fails.append(f"transform uncertainty on the integer-typed output grid {xw.tolist()} differs from the same grid as floats "
+                         f"({np.asarray(uw).tolist()[:3]} vs {np.asarray(uf).tolist()[:3]})")
+        _, _, ugw = tr.F_to_G(x, y, xw, dfq=e, **kw) if hi is None else tr.F_to_G(x, y, xw, dfq=e, xmax=hi, **kw)
+        if exceeds(np.abs(np.asarray(ugw, dtype=float) - np.asarray(uf, dtype=float) * 2 / np.pi).max(), 1e-12 * (float(np.abs(uf).max()) + 1e-300)):
+            fails.append("F_to_G uncertainty on an integer-typed output grid is not (2/pi) x core uncertainty of the same grid as floats")
+    except Exception as ex:  # noqa: BLE001
+        fails.append(f"an integer-typed output grid with float uncertainties raises {type(ex).__name__}")
     # 2/pi scaling in the Q->r direction
     _, _, ug2 = tr.F_to_G(x, y, xo, dfq=e, **kw) if hi is None else tr.F_to_G(x, y, xo, dfq=e, xmax=hi, **kw)
     if exceeds(np.abs(np.asarray(ug2) - u * 2 / np.pi).max(), 1e-12 * sc):
